@@ -167,6 +167,7 @@ package classifier
 //
 // ---------------------------------------------------------------- package-level variables
 //@ global unknownIndex-is-zero: unknownIndex == 0
+//@ global eol-is-newline: eol == "\n"
 //@ global ignorableTexts-non-nil: forall i int :: 0 <= i && i < len(ignorableTexts) ==> ignorableTexts[i] != nil
 //
 // ---------------------------------------------------------------- searchset.go
@@ -607,10 +608,21 @@ package classifier
 //
 // ---------------------------------------------------------------- Normalize, LoadLicenses
 //
+//@ // C11 (clause 1): outLine is 1 + the number of newlines written to the
+//@ // output so far, i.e. the output line the next word will land on. Every word
+//@ // must be written on the output line that equals the line Match attributes
+//@ // to it (its token's Line).
+//@ ghostvar outLine int
 //@ func (*Classifier).Normalize
 //@   requires wfClassifier(c)
 //@   ensures wfClassifier(c)
 //@   modifies entries(c.dict.words), entries(c.dict.indices)
+//@   ghostset outLine = 1 atentry
+//@   ghostset outLine = outLine + ite(arg_s == eol, 1, 0) after WriteString
+//@   callreq WriteString#3 requires arg_s != eol && outLine == t.Line
+//@   callreq WriteString#2 requires arg_s != eol
+//@   loop 1 invariant outLine == prevLine && (rangeindex == -1 ==> prevLine == 1) && (rangeindex >= 0 ==> prevLine == doc.Tokens[rangeindex].Line) && sortedLines(doc) && okLines(doc)
+//@   loop 2 invariant outLine == prevLine && prevLine <= t.Line && sortedLines(doc) && okLines(doc)
 //@   props C10 C04 C11
 //@
 //@ // C12: LoadLicenses adds exactly the files ending in "txt" that lie at depth
